@@ -1,6 +1,6 @@
 """C07 — A lagging node fetches missing blocks (structural clauses; convergence itself is not decided)."""
 from .. import ir
-from ..analysis import And, Atom, Not, Or, cmp_formula, implies, show, uncond_subnodes, diverges
+from ..analysis import And, Atom, Not, Or, cmp_formula, implies, show, uncond_subnodes, sure_subnodes, diverges
 from ..common import (BLOCK, CORE, CONSENSUS_MSG, Env, call_args, callee_paths, core_handlers, key, ordinal_keys)
 from ..wiring import Wiring, MPSC_RECV
 
@@ -148,7 +148,7 @@ def rules(P, R, prefix="C07"):
                         for arm in rb["arms"]:
                             if arm["pat"]["k"] == "ptstruct" and arm["pat"]["path"].endswith("::Ok"):
                                 vid = next((p["id"] for p in ir.walk(arm["pat"]) if p["k"] == "pbind"), None)
-                                sends_in = [n for n in uncond_subnodes(arm["body"]) if n in lsend or any(n is x for x in lsend)]
+                                sends_in = [n for n in sure_subnodes(arm["body"]) if n in lsend or any(n is x for x in lsend)]
                                 okarm = bool(sends_in)
                     R.judge(okl and okarm, prefix + ".Y2", key(sn, "resumed block is looped back to Core on every path" + tag), rb["sp"], "",
                             "a parked block whose parent arrived is not unconditionally sent on the loop-back channel (it would be dropped)")
@@ -193,7 +193,7 @@ def rules(P, R, prefix="C07"):
                                            "requests are never retried (or fresh ones are)" % (show(inner), show(overdue)))
                         R.judge(okc, prefix + ".Y3", key(sn, "retry for every request older than sync_retry_delay, and only those" + tag), fl[0]["sp"],
                                 show(overdue) if overdue is not None else "", why)
-                    resets = [n for n in uncond_subnodes(tb) if n["k"] == "mcall" and n["name"] == "reset"]
+                    resets = [n for n in sure_subnodes(tb) if n["k"] == "mcall" and n["name"] == "reset"]
                     R.judge(bool(resets), prefix + ".Y3", key(sn, "retry timer re-armed on every path" + tag), tb["sp"], "",
                             "the retry arm does not unconditionally re-arm its timer: after one expiry no further retries happen")
 
